@@ -1010,6 +1010,9 @@ fn install_panic_hook() {
                 "panic".to_string()
             };
             let loc = info.location().map(|l| format!(" at {}:{}", l.file(), l.line())).unwrap_or_default();
+            if std::env::var_os("VERIF_DEBUG").is_some() {
+                eprintln!("[panic] {}{}\n{}", msg, loc, std::backtrace::Backtrace::force_capture());
+            }
             let _ = PANIC_MSG.try_with(|p| {
                 if let Ok(mut p) = p.try_borrow_mut() {
                     if p.is_none() {
